@@ -2,6 +2,7 @@
 //! canonical observation line per step.  Usage: harness <prop> <cases-file>
 mod acct;
 mod alloc;
+mod c03;
 mod c05;
 mod c06;
 mod c07s;
@@ -39,6 +40,7 @@ fn main() {
     let mut out = std::io::BufWriter::new(out.lock());
     match args[1].as_str() {
         "acct" | "c01" | "c02" | "c04" | "c12" | "c20" => acct::run(&text, &args[2], &mut out),
+        "c03" => c03::run(&text, &args[2], &mut out),
         "c05" => c05::run(&text, &args[2], &mut out),
         "c06" | "c07" => c06::run(&text, &args[2], &mut out),
         "c08" => c08::run(&text, &mut out),
